@@ -2,6 +2,8 @@
  * C16 tie: fork() bracketed by the documented handlers, on the REAL sources.
  *
  *   default build        src/urcu.c (-DRCU_MEMBARRIER | -DRCU_MB) incl. src/urcu-call-rcu-impl.h
+ *   -DFORK_QSBR          src/urcu-qsbr.c (threads announce quiescent states between operations; the
+ *                        forking thread is offline around the handlers unless --online 1)
  *   -DFORK_BP            src/urcu-bp.c (urcu_bp_before_fork / after_fork_parent / after_fork_child +
  *                        the call_rcu handlers of the bp flavor)
  *
@@ -20,6 +22,11 @@
  *   bp:      the other threads stay registered and go on taking read-side sections across the fork.
  * The child uses rcu_read_lock/unlock, synchronize_rcu, call_rcu (default + a new per-thread helper),
  * rcu_barrier, optionally forks again (--depth), and must terminate.
+ *
+ * Options: --workers N --wops N --pre N --post N --burst N --delay D (fork point: steps after the burst; -1 = from the
+ * seed) --regfork 0|1 --depth G (generations) --rt PCT --chain PCT --percpu N --ownhelper 0|1 --creaders N (reader threads
+ * the child creates) --online 0|1 (qsbr: forking thread stays online around the handlers) --freerace 1 (probe outside the
+ * property: call_rcu_data_free() concurrent with the handlers) + the runtime's --seed/--strategy/--pswitch/--faults.
  *
  * Independent oracles (plain C, no model):
  *   once      in EACH process every callback whose call_rcu() had returned is invoked exactly once
@@ -86,6 +93,10 @@ static int bp_unlock(pthread_mutex_t *m)
 #include "urcu-bp.c"
 #define FLAVOR "bp"
 #define HAS_MEMB urcu_bp_has_sys_membarrier
+#elif defined(FORK_QSBR)
+#include "urcu-qsbr.c"
+#define FLAVOR "qsbr"
+#define HAS_MEMB 0
 #else
 #include "urcu.c"
 #ifdef RCU_MEMBARRIER
@@ -126,6 +137,22 @@ static int depth[VRT_MAXT];
 static int nworkers = 2, wops = 14, pre = 10, burst = 4, delay = -1, regfork = 1, fdepth, rtpct = 30, chainpct = 25,
 	   maxchain = 2, percpu_n = 1, own_helper = 1, post = 6;
 static volatile int quiet, resume_flag, workers_out;
+static int online_fork, freerace, nreaders_child = 3;
+static volatile int freerace_go, freerace_started;
+static struct call_rcu_data *worker_helpers[MAXW * 4];
+static int nworker_helpers;
+
+/* QSBR: a registered thread announces a quiescent state between two operations */
+static void qs(void)
+{
+#ifdef FORK_QSBR
+	if (URCU_TLS(rcu_reader).registered && depth[vrt_self()] == 0 && _rcu_read_ongoing()) {
+		vrt_log("CALL qs");
+		rcu_quiescent_state();
+		vrt_log("RET qs");
+	}
+#endif
+}
 static int generation;			/* 0 = original process, k = k-th level child */
 static int fork_nthreads;		/* child: threads with tid < this (except the forking one) do not exist */
 static int forker_tid;
@@ -439,11 +466,23 @@ static int do_set_cpu(int cpu, struct call_rcu_data *h)
 	return r;
 }
 
+/* QSBR: call_rcu_data_free() & co wait for a helper that may be inside a grace period: the caller
+ * must not be an online reader meanwhile (documented for free_all_cpu_call_rcu_data) */
+#ifdef FORK_QSBR
+#define QSBR_OFFLINE_BEGIN	int _was = URCU_TLS(rcu_reader).registered && _rcu_read_ongoing(); if (_was) rcu_thread_offline()
+#define QSBR_OFFLINE_END	if (_was) rcu_thread_online()
+#else
+#define QSBR_OFFLINE_BEGIN	do { } while (0)
+#define QSBR_OFFLINE_END	do { } while (0)
+#endif
+
 static void do_free(struct call_rcu_data *h)
 {
+	QSBR_OFFLINE_BEGIN;
 	vrt_log("CALL free crd%d", crd_id(h));
 	call_rcu_data_free(h);
 	vrt_log("RET free");
+	QSBR_OFFLINE_END;
 }
 
 static void do_sync(void)
@@ -455,9 +494,11 @@ static void do_sync(void)
 
 static void do_free_all(void)
 {
+	QSBR_OFFLINE_BEGIN;
 	vrt_log("CALL free_all");
 	free_all_cpu_call_rcu_data();
 	vrt_log("RET free_all");
+	QSBR_OFFLINE_END;
 }
 
 static void do_register(void)
@@ -490,6 +531,7 @@ static void app_op(struct call_rcu_data **myh, int allow_helper)
 {
 	int me = vrt_self();
 	unsigned c = vrt_rand() % 100;
+	qs();
 	if (c < 42) {
 		do_call_rcu(rnd_chain());
 	} else if (c < 54) {
@@ -502,13 +544,22 @@ static void app_op(struct call_rcu_data **myh, int allow_helper)
 		if (allow_helper && !*myh) {
 			*myh = do_create(rnd_flags(), -1);
 			do_set_thread(*myh);
+			worker_helpers[nworker_helpers++] = *myh;
 		}
 	} else if (c < 88) {
 		set_my_cpu(rnd_cpu());
 	} else if (c < 92) {
 		if (depth[me] == 0) do_sync();
 	} else {
+#ifdef FORK_QSBR
+		if (depth[me] == 0) {
+			rcu_thread_offline();
+			vrt_sleep(1 + vrt_rand() % 25);
+			rcu_thread_online();
+		}
+#else
 		vrt_sleep(1 + vrt_rand() % 25);
+#endif
 	}
 }
 
@@ -550,22 +601,37 @@ static void *worker(void *arg)
 		app_op(&myh, 1);
 	while (depth[me] > 0)
 		do_unlock();
-	if (myh) {
-		do_set_thread(NULL);
-		do_free(myh);
-	}
+	if (myh)
+		do_set_thread(NULL);	/* the helper itself is freed in the final phase */
 	do_unregister();
 	workers_out++;
 	return NULL;
 }
 
+/* --freerace: an (unregistered) thread tears a helper down while another thread runs the fork
+ * handlers.  Outside the quantifier of C16 (documented use keeps helper management away from fork);
+ * kept as a directed probe of call_rcu_before_fork()'s wait for PAUSED. */
+static void *freeracer(void *arg)
+{
+	struct call_rcu_data *h = arg;
+	vrt_log("FREERACER");
+	while (!freerace_go)
+		vrt_sleep(3);
+	freerace_started = 1;
+	do_free(h);
+	return NULL;
+}
+
 /* ---- the fork ------------------------------------------------------------------------------------ */
 static int sync_fd[2];
+static int racer_tid;
 static int registered0;		/* the forking thread is registered as a reader (explicitly; bp: has a slot) */
 static struct call_rcu_data *myh0;
 static int have_percpu;
 
-#ifndef FORK_BP
+#if defined(FORK_QSBR)
+#define READER_OF_NODE(n) caa_container_of(n, struct urcu_qsbr_reader, node)
+#elif !defined(FORK_BP)
 #define READER_OF_NODE(n) caa_container_of(n, struct urcu_reader, node)
 #else
 #define READER_OF_NODE(n) caa_container_of(n, struct urcu_bp_reader, node)
@@ -629,8 +695,24 @@ static void do_fork(void)
 {
 	struct call_rcu_data *crdp;
 	int i, pid, nq = 0, nthreads_at_fork;
+	int went_offline = 0;
 	if (depth[vrt_self()] > 0)
 		abort();	/* scenario bug: the handlers are called outside read-side sections */
+#ifdef FORK_QSBR
+	if (registered0 && !online_fork) {
+		/* QSBR rule: a thread that blocks goes offline first */
+		vrt_log("CALL offline");
+		rcu_thread_offline();
+		vrt_log("RET offline");
+		went_offline = 1;
+	}
+#endif
+	if (freerace) {
+		freerace_go = 1;
+		while (!freerace_started)
+			vrt_sleep(2);
+		vrt_sleep(vrt_rand() % 12);
+	}
 	vrt_log("CALL before_fork");
 	call_rcu_before_fork();
 	vrt_log("RET before_fork");
@@ -641,8 +723,8 @@ static void do_fork(void)
 #endif
 	/* quiescent oracle: every helper parked */
 	cds_list_for_each_entry(crdp, &call_rcu_data_list, list)
-		if (!(crdp->flags & URCU_CALL_RCU_PAUSED))
-			vrt_fail("quiescent", "before_fork returned while helper crd%d is not PAUSED (flags %#lx)", crd_id(crdp), crdp->flags);
+		if (!(crdp->flags & (URCU_CALL_RCU_PAUSED | URCU_CALL_RCU_STOPPED)))
+			vrt_fail("quiescent", "before_fork returned while helper crd%d is neither PAUSED nor STOPPED (flags %#lx)", crd_id(crdp), crdp->flags);
 	for (i = 1; i <= ncb; i++) {
 		cbs[i]->at_fork = cbs[i]->ret_time && !cbs[i]->invoked;
 		nq += cbs[i]->at_fork;
@@ -689,8 +771,16 @@ static void do_fork(void)
 	call_rcu_after_fork_parent();
 	vrt_log("RET after_fork_parent");
 	cds_list_for_each_entry(crdp, &call_rcu_data_list, list)
-		if (crdp->flags & (URCU_CALL_RCU_PAUSED | URCU_CALL_RCU_PAUSE))
+		if ((crdp->flags & (URCU_CALL_RCU_PAUSED | URCU_CALL_RCU_PAUSE)) && !(crdp->flags & URCU_CALL_RCU_STOPPED))
 			vrt_fail("resume", "after_fork_parent returned while helper crd%d still has PAUSE/PAUSED (flags %#lx)", crd_id(crdp), crdp->flags);
+#ifdef FORK_QSBR
+	if (went_offline) {
+		vrt_log("CALL online");
+		rcu_thread_online();
+		vrt_log("RET online");
+	}
+#endif
+	(void)went_offline;
 	/* remember the child; it is reaped at the very end so that both run "concurrently" */
 	{
 		extern int child_pid_of_gen[8];
@@ -698,6 +788,39 @@ static void do_fork(void)
 	}
 }
 int child_pid_of_gen[8];
+
+static volatile int child_readers_stop;
+static void *child_reader(void *arg)
+{
+	int me = vrt_self(), n = 0;
+	(void)arg;
+	name_my_reader();
+	vrt_log("CREADER");
+	do_register();
+	while (!child_readers_stop && n++ < 40) {
+		unsigned c = vrt_rand() % 100;
+		qs();
+		if (c < 40) { if (depth[me] < 2) do_lock(); }
+		else if (c < 85) { if (depth[me] > 0) do_unlock(); }
+		else {
+#ifdef FORK_QSBR
+			if (depth[me] == 0) { rcu_thread_offline(); vrt_sleep(2 + vrt_rand() % 9); rcu_thread_online(); }
+#else
+			vrt_sleep(2 + vrt_rand() % 9);
+#endif
+		}
+	}
+	while (depth[me] > 0)
+		do_unlock();
+#ifdef FORK_QSBR
+	rcu_thread_offline();
+	while (!child_readers_stop)
+		vrt_sleep(5);
+	rcu_thread_online();
+#endif
+	do_unregister();
+	return NULL;
+}
 
 static void registry_oracle(void)
 {
@@ -762,6 +885,13 @@ static void child_main(void)
 		vrt_fail("crdlist", "child: per-CPU array not reset");
 	if (URCU_TLS(thread_call_rcu_data) != NULL)
 		vrt_fail("crdlist", "child: per-thread call_rcu_data pointer not reset");
+#ifdef FORK_QSBR
+	if (registered0 && !online_fork) {
+		vrt_log("CALL online");
+		rcu_thread_online();
+		vrt_log("RET online");
+	}
+#endif
 	/* the child goes on using everything */
 	if (!registered0) {
 		do_register();
@@ -769,9 +899,25 @@ static void child_main(void)
 	}
 	myh0 = NULL;
 	have_percpu = 0;
+	nworker_helpers = 0;
 	do_lock();
 	do_unlock();
 	do_sync();
+	{
+		/* new reader threads in the child (they reuse whatever the erased threads left behind:
+		 * bp arena slots, TLS blocks); a grace period must not wait for leftovers */
+		int rt[8], k;
+		child_readers_stop = 0;
+		for (k = 0; k < nreaders_child && k < 8; k++)
+			rt[k] = vrt_spawn("creader", child_reader, (void *)(long)(k + 1));
+		vrt_sleep(10 + vrt_rand() % 30);
+		do_sync();
+		do_call_rcu(0);
+		do_sync();
+		child_readers_stop = 1;
+		for (k = 0; k < nreaders_child && k < 8; k++)
+			vrt_join(rt[k]);
+	}
 	for (i = 0; i < 3; i++)
 		do_call_rcu(rnd_chain());
 	do_barrier();
@@ -815,15 +961,23 @@ static void final_phase(void)
 		do_free(myh0);
 		myh0 = NULL;
 	}
+	for (i = 0; i < nworker_helpers; i++)
+		if (!(freerace && i == 0 && generation == 0))
+			do_free(worker_helpers[i]);
+	nworker_helpers = 0;
 	for (i = 0; i <= maxchain; i++)
 		do_barrier();
 	for (i = 1; i <= ncb; i++)
 		if (cbs[i]->ret_time && (cbs[i]->invoked != 1 || !cbs[i]->finished))
 			vrt_fail(cbs[i]->at_fork ? "once" : "once", "generation %d: callback %d%s invoked %d times (finished=%d) at the end of the process",
 				 generation, i, cbs[i]->at_fork ? " (queued at the fork)" : "", cbs[i]->invoked, cbs[i]->finished);
-	vrt_log("CALL exit");
-	urcu_call_rcu_exit();
-	vrt_log("RET exit");
+	{
+		QSBR_OFFLINE_BEGIN;
+		vrt_log("CALL exit");
+		urcu_call_rcu_exit();
+		vrt_log("RET exit");
+		QSBR_OFFLINE_END;
+	}
 	if (default_call_rcu_data != NULL)
 		vrt_fail("once", "default helper still has callbacks queued at exit");
 	poison_check();
@@ -860,6 +1014,9 @@ int main(int argc, char **argv)
 		else if (!strcmp(argv[i], "--chain") && i + 1 < argc) chainpct = atoi(argv[++i]);
 		else if (!strcmp(argv[i], "--percpu") && i + 1 < argc) percpu_n = atoi(argv[++i]);
 		else if (!strcmp(argv[i], "--ownhelper") && i + 1 < argc) own_helper = atoi(argv[++i]);
+		else if (!strcmp(argv[i], "--online") && i + 1 < argc) online_fork = atoi(argv[++i]);
+		else if (!strcmp(argv[i], "--freerace") && i + 1 < argc) freerace = atoi(argv[++i]);
+		else if (!strcmp(argv[i], "--creaders") && i + 1 < argc) nreaders_child = atoi(argv[++i]);
 	}
 	if (nworkers > MAXW) nworkers = MAXW;
 	if (nworkers < 0) nworkers = 0;
@@ -912,8 +1069,21 @@ int main(int argc, char **argv)
 	while (depth[0] > 0)
 		do_unlock();
 	/* wait until the other threads meet the documented precondition */
+#ifdef FORK_QSBR
+	rcu_thread_offline();
+#endif
 	while (quiet < nworkers)
 		vrt_sleep(5 + vrt_rand() % 7);
+#ifdef FORK_QSBR
+	rcu_thread_online();
+#endif
+	if (freerace) {
+		/* a helper that belongs to nobody, torn down by a thread outside liburcu's read side */
+		struct call_rcu_data *victim = do_create(0, -1);
+		worker_helpers[nworker_helpers++] = victim;	/* slot 0 if no worker created one: see final_phase */
+		if (nworker_helpers > 1) { struct call_rcu_data *x = worker_helpers[0]; worker_helpers[0] = victim; worker_helpers[nworker_helpers - 1] = x; }
+		racer_tid = vrt_spawn("freeracer", freeracer, victim);
+	}
 	/* phase 2: a burst so that helpers are caught at arbitrary points, then the fork */
 	for (i = 0; i < burst; i++) {
 		if (i == burst / 2 && own_helper)
@@ -930,8 +1100,15 @@ int main(int argc, char **argv)
 #endif
 	if (delay < 0)
 		delay = (int)(vrt_rand() % 90);
-	if (delay > 0)
+	if (delay > 0) {
+#ifdef FORK_QSBR
+		if (registered0 && !online_fork) rcu_thread_offline();
+#endif
 		vrt_sleep((unsigned long)delay);
+#ifdef FORK_QSBR
+		if (registered0 && !online_fork) rcu_thread_online();
+#endif
+	}
 	do_fork();
 	/* phase 3 (parent): everything still works */
 	resume_flag = 1;
@@ -945,8 +1122,16 @@ int main(int argc, char **argv)
 	}
 	while (depth[0] > 0)
 		do_unlock();
+#ifdef FORK_QSBR
+	rcu_thread_offline();
+#endif
 	for (i = 0; i < nworkers; i++)
 		vrt_join(wt[i]);
+	if (freerace)
+		vrt_join(racer_tid);
+#ifdef FORK_QSBR
+	rcu_thread_online();
+#endif
 	final_phase();
 	return vrt_failed ? 3 : 0;
 }
